@@ -10,6 +10,13 @@ TRUST = ("Trusted base: the Go type checker and go/ssa (x/tools v0.29.0) as a fa
 
 # id -> (technique, level text, level_note, design_ref)
 CLAIMED = {
+    "C06": (
+        "feature table read from 'Added in vX.Y.Z' field comments + type-structure placement enumeration + access-path reads of each version predicate (element flow through append/range) + loop-variable escape analysis per module Go version",
+        "Decides that every version-gated field is read by the predicate of its version at every placement the type structure allows (spec level and every device), in complete loops without early verdicts; "
+        "that no pointer to a per-loop variable outlives its iteration in go<1.22 modules; that feature-less versions never require themselves; that requiredVersion takes the maximum over all predicates and "
+        "ValidateVersion admits exactly known versions not lower than it; that the table covers SPEC.md's released versions.",
+        TRUST + "semver.Compare is trusted. Does not decide arbitrary version strings nor semver ordering.",
+        "DESIGN.md §4 C06"),
     "C05": (
         "success-condition tables: decoded guard sets of every validator's success and failure returns (CFG edge dominance) + argument origins (access paths) + error-flow (path enumeration) + type-switch coverage",
         "Decides the admission predicate structurally for all paths: each validator (Spec, Device, ContainerEdits, Hook, DeviceNode, Mount, IntelRdt, env, annotations) can return success exactly under the documented conditions, "
